@@ -12,6 +12,7 @@ import re
 import vlib
 from checks import liftlib
 
+BN254 = 21888242871839275222246405745257275088548364400416034343698204186575808495617
 HELPERS = ("template U() { signal input in; signal output out; out <== in; }\n"
            "template V2() { signal input in; signal output o1; signal output o2; o1 <== in; o2 <== in + 1; }\n"
            "template V(n) { signal input a; signal input b; signal output c; c <== a * b; }\n")
@@ -41,6 +42,9 @@ HAND = [
     ("template T() { signal input x; signal output o; o <== V(1)(b <-- x >> 1, a <-- x); }", 2),
     ("template T() { signal input x; signal u <-- x * x * x, v <-- x >> 1; signal output o; o <== u + v; }", 2),
     ("template T() { signal input x; signal output u <-- x, v <-- x * x * x, w <== x; }", 2),
+    # an index literal that is not smaller than the prime denotes the element of its residue (review of d5ed6fe)
+    ("template T() { signal input a; signal output o[2]; o[0] <-- a \\ 2; o[%d] * 2 === a; }" % BN254, None),
+    ("template T() { signal input a; signal output o[2]; o[1] <-- a \\ 2; o[%d] * 2 === a; o[0] <== a; }" % BN254, None),
     # a parallel template is not a custom template (seeded C08 m3 concerns files without a main component)
     ("template parallel T() { signal input x; signal output o; o <-- x * x * x; }", 1),
 ]
@@ -186,8 +190,8 @@ def may_alias(a, b):
             return False
         if ka == "port" and xa != xb:
             return False
-        if ka == "idx" and re.fullmatch(r"\d+", xa) and re.fullmatch(r"\d+", xb) and int(xa) != int(xb):
-            return False
+        if ka == "idx" and re.fullmatch(r"\d+", xa) and re.fullmatch(r"\d+", xb) and int(xa) % BN254 != int(xb) % BN254:
+            return False       # literals are read modulo the prime (the runs use BN254)
     return True
 
 
